@@ -130,12 +130,31 @@ Hypothesis conj_div : forall x y, conj (div x y) = div (conj x) (conj y).
 Hypothesis conj_invol : forall x, conj (conj x) = x.
 Hypothesis re_zero : re z0 = z0.
 Hypothesis im_zero : im z0 = z0.
+Hypothesis re_add : forall x y, re (add x y) = add (re x) (re y).
+Hypothesis im_add : forall x y, im (add x y) = add (im x) (im y).
 Ltac zero_laws :=
   repeat first [ rewrite Dx_zero | rewrite DX_zero | rewrite conj_zero | rewrite conj_one
                | rewrite conj_add | rewrite conj_mul | rewrite conj_sub | rewrite conj_opp
-               | rewrite conj_div | rewrite conj_invol | rewrite re_zero | rewrite im_zero ].
+               | rewrite conj_div | rewrite conj_invol | rewrite re_zero | rewrite im_zero
+               | rewrite re_add | rewrite im_add ].
+Ltac unify_ri :=
+  match goal with
+  | |- context [re ?X] =>
+      match goal with
+      | |- context [re ?Y] =>
+          lazymatch X with Y => fail | _ => idtac end;
+          replace (re X) with (re Y) by (f_equal; arg_eq X Y)
+      end
+  | |- context [im ?X] =>
+      match goal with
+      | |- context [im ?Y] =>
+          lazymatch X with Y => fail | _ => idtac end;
+          replace (im X) with (im Y) by (f_equal; arg_eq X Y)
+      end
+  end.
 Ltac finish := first [ reflexivity | ring | field; nz_solve char0
-                     | repeat unify1; first [ reflexivity | ring | field; nz_solve char0 ] ].
+                     | repeat unify1; first [ reflexivity | ring | field; nz_solve char0 ]
+                     | repeat first [ unify1 | unify_ri ]; first [ reflexivity | ring | field; nz_solve char0 ] ].
 Ltac close0 := norm_goal; first [ reflexivity | zero_laws; finish ].
 (* adjoint: only Conj(Conj x) -> x of the constructor has to be undone *)
 Ltac closeC := norm_goal; first [ reflexivity | rewrite ?conj_invol; finish | zero_laws; finish ].
@@ -240,8 +259,42 @@ def ceval(e, env, subst, rho=None, c=(), side=None, dpath=()):
             return GQ(0)
         return env.get((ufl2coq.Ctx.term_key(t), tuple(c), side, tuple(dpath)))
     if dpath and n not in ("Grad", "Indexed", "Sum", "Conj", "PositiveRestricted", "NegativeRestricted",
-                           "Variable", "ComponentTensor", "ListTensor", "IndexSum"):
+                           "Variable", "ComponentTensor", "ListTensor", "IndexSum", "Product", "Real", "Imag",
+                           "Conditional", "Inner", "Dot", "Outer", "Division"):
         raise Unsupported("derivative of a non-linear node")
+    if dpath and n in ("Product", "Inner", "Dot", "Outer"):
+        # Leibniz for commuting derivations: D_P(a.b) = sum over subsets S of P of D_S a . D_{P-S} b
+        def bil(fa, fb):
+            tot = GQ(0)
+            idx = range(len(dpath))
+            for r_ in range(len(dpath) + 1):
+                for S_ in itertools.combinations(idx, r_):
+                    da = tuple(dpath[k] for k in S_)
+                    db = tuple(dpath[k] for k in idx if k not in S_)
+                    tot = tot + fa(da) * fb(db)
+            return tot
+        E = lambda x, cc, d: ceval(x, env, subst, rho, tuple(cc), side, d)  # noqa: E731
+        if n == "Product":
+            return bil(lambda d: E(ops[0], (), d), lambda d: E(ops[1], (), d))
+        if n == "Inner":
+            tot = GQ(0)
+            for I in itertools.product(*[range(d_) for d_ in ops[0].ufl_shape]):
+                tot = tot + bil(lambda d: E(ops[0], I, d), lambda d: E(ops[1], I, d).conj())
+            return tot
+        if n == "Dot":
+            ra = len(ops[0].ufl_shape) - 1
+            tot = GQ(0)
+            for k in range(ops[0].ufl_shape[-1]):
+                tot = tot + bil(lambda d: E(ops[0], tuple(c[:ra]) + (k,), d), lambda d: E(ops[1], (k,) + tuple(c[ra:]), d))
+            return tot
+        ra = len(ops[0].ufl_shape)
+        return bil(lambda d: E(ops[0], c[:ra], d).conj(), lambda d: E(ops[1], c[ra:], d))
+    if dpath and n == "Division":
+        if len(dpath) != 1:
+            raise Unsupported("higher derivative of a quotient")
+        a_, b_ = ceval(ops[0], env, subst, rho, (), side, ()), ceval(ops[1], env, subst, rho, (), side, ())
+        da_, db_ = ev(ops[0]), ev(ops[1])
+        return (da_ - (a_ / b_) * db_) / b_
     if n == "Sum":
         return ev(ops[0], c) + ev(ops[1], c)
     if n == "Product":
@@ -281,7 +334,7 @@ def ceval(e, env, subst, rho=None, c=(), side=None, dpath=()):
         return ceval(ops[0], env, subst, rho, tuple(c[:-1]), side, (c[-1],) + tuple(dpath))
     if n == "Conditional":
         cn = ops[0]
-        a, b = ev(cn.ufl_operands[0]), ev(cn.ufl_operands[1])
+        a, b = ev(cn.ufl_operands[0], (), rho, side, ()), ev(cn.ufl_operands[1], (), rho, side, ())
         cmpn = type(cn).__name__
         if cmpn not in ("LT", "GT", "LE", "GE"):
             raise Unsupported(cmpn)
